@@ -108,6 +108,11 @@ func announce(d replayDoc) {
 		b[i] = ' '
 	}
 	curFile.WriteAt(b, 0)
+	if die := os.Getenv("WALMC_TEST_DIE"); die != "" && strings.Contains(string(s), die) {
+		// self-test of the crash attribution path: behave like a runtime fatal error
+		fmt.Fprintln(os.Stderr, "fatal error: WALMC_TEST_DIE")
+		os.Exit(2)
+	}
 }
 
 func curPath(t []byte) string {
